@@ -843,11 +843,11 @@ func (e *driverEnv) evidence(pl plan, a *agg, wall, mainWall float64, mainRuns, 
 		rule = "Each run is a seeded object life-cycle history (nil-receiver sweep, fresh-constructor sweep, 4-16 decodes of generated valid/edited/raw vectors through all 12 decoder entry points, observers on the result or on the receiver left behind, and for decoded objects a complete one-at-a-time sweep of 'reset one exported field to the invalid value the library itself returns for garbage'). distinct_nontrivial counts distinct (decoder, input) pairs plus distinct (type, object state, observer) and (type, faulted field, queried level) tuples actually executed; a bare repeat of an identical tuple is not counted."
 	case "C15":
 		distinct = len(a.caseKeys)
-		rule = "Each run is one OS process executing a seeded history (5-200 operations, thorough: up to 2000) of decodes, queries, report constructions, exports, lookups and aged-vs-fresh-twin comparisons over a pool drawn from a base-seed-wide input pool, with map iteration order permuted per range execution. distinct_nontrivial counts distinct histories (by hash of the operation list) that contain at least one operation repeated at a non-adjacent position; histories without such a repeat are not counted."
+		rule = "Each run is one OS process executing a seeded history (5-200 operations, thorough: up to 2000) of decodes, re-decodes on used receivers, field assignments, queries, report constructions, exports (immediate and deferred reads), lookups and aged-vs-rebuilt-twin comparisons (twin = same decodes and assignments, no queries, observers called in reverse order) over inputs drawn from a pool shared by blocks of 400 runs (with families of near-collisions: other CVSS 3.x version, one metric changed, a group dropped), with map iteration order permuted per range execution; identical operations are also compared across processes. distinct_nontrivial counts distinct histories (by hash of the operation list) that contain at least one operation repeated at a non-adjacent position; histories without such a repeat are not counted."
 	case "C16":
-		rule = "Each run builds a shared world (decoded objects, reports), executes 2-8 tasks' operation lists sequentially for reference and then concurrently under a seeded scheduler (no pre-emption / Bernoulli p in {0.01,0.1,0.5,1} / PCT depth<=3 / I/O-only pre-emption) at statement-level yield points, with the task hand-off hidden from the race detector. distinct_nontrivial counts distinct concurrent-phase event-log fingerprints of runs with at least one pre-emption (a run without pre-emption is trivial for interleaving purposes, though the race verdict still covers it)."
+		rule = "Each run builds a shared world (decoded objects, reports), executes 2-8 tasks' operation lists sequentially for reference and then concurrently under a seeded scheduler (no pre-emption / Bernoulli p in {0.01,0.1,0.5,1} / PCT depth<=3 / I/O-only pre-emption) at statement-level yield points, with the task hand-off hidden from the race detector; the concurrent phase runs first on untouched objects, worker processes alternate between two race builds (sync.Pool never caching / stock sync.Pool). distinct_nontrivial counts distinct concurrent-phase event-log fingerprints of runs with at least one pre-emption (a run without pre-emption is trivial for interleaving purposes, though the race verdict still covers it)."
 	case "C19":
-		rule = "Each run builds 1-3 reports (level x language x vector) and exports generated template programs (valid / broken / character-edited) through ExportWithString, through simulated readers with benign scripts (chunking, stalls, data+EOF, WriterTo) and failing scripts, plus a complete sweep of the failure offset k in [0,len] x {error alone, error with data} for every template of at most 256 bytes, and nil-report / nil-reader cases; reference = text/template itself. distinct_nontrivial counts distinct (fault class, reference verdict, script shape, template class) tuples in which the fault actually fired or the benign script was actually exercised."
+		rule = "Each run builds 1-3 reports (level x language x vector) and exports generated template programs (valid / broken / character-edited) through ExportWithString, through simulated readers with benign scripts (chunking, stalls, data+EOF, WriterTo) and failing scripts, plus a complete sweep of the failure offset k in [0,len] x {error alone, error with data} for every template of at most 256 bytes, and nil-report / nil-reader cases; every second export operation reads the returned readers only after the following operation's exports (deferred read); reference = text/template itself. distinct_nontrivial counts distinct (fault class, reference verdict, script shape, template class) tuples in which the fault actually fired or the benign script was actually exercised."
 	}
 	cov := map[string]any{
 		"evaluations":         a.runs,
